@@ -305,6 +305,46 @@ func vfGenDelays(t *rapid.T, c *vfProdCase) {
 	}
 }
 
+// vfGenIdleBump is a directed template for the idempotent producer: partition B (led by broker 2) is written and goes idle,
+// then a message for partition A (led by broker 1) fails for good - which starts a new producer epoch while nothing else is
+// buffered or in flight - and then B is written again. Everything B receives afterwards has to carry the new epoch and start
+// at sequence 0. (Outside the regions of the known idempotence defects, which need other messages in the pipeline.)
+func vfGenIdleBump(t *rapid.T, c *vfProdCase) {
+	if c.Brokers < 2 {
+		c.Brokers = 2
+	}
+	for len(c.Topics[0].Leaders) < 2 {
+		c.Topics[0].Leaders = append(c.Topics[0].Leaders, 2)
+	}
+	c.Topics[0].Leaders[0], c.Topics[0].Leaders[1] = 1, 2
+	c.Conf.Partitioner = "manual"
+	c.Conf.FlushMessages, c.Conf.FlushBytes, c.Conf.FlushFreqUs = 0, 0, 0
+	k1 := rapid.IntRange(1, 3).Draw(t, "idle.k1")
+	k3 := rapid.IntRange(1, 3).Draw(t, "idle.k3")
+	n := k1 + 1 + k3
+	for len(c.Msgs) < n {
+		c.Msgs = append(c.Msgs, vfMsgSpec{ValLen: 8 + len(c.Msgs)})
+	}
+	c.Msgs = c.Msgs[:n]
+	for i := range c.Msgs {
+		c.Msgs[i].Topic, c.Msgs[i].Part = 0, 1
+	}
+	c.Msgs[k1].Part = 0
+	var l []vfFault
+	if rapid.Bool().Draw(t, "idle.fatal") {
+		l = append(l, vfFault{Kind: "err", Code: rapid.SampledFrom([]int16{10, 17, 29, 87}).Draw(t, "idle.code")})
+	} else {
+		code := rapid.SampledFrom(vfRetriableCodes).Draw(t, "idle.rcode")
+		for i := 0; i <= c.Conf.RetryMax; i++ {
+			l = append(l, vfFault{Kind: "err", Code: code})
+		}
+	}
+	c.Faults = map[string][]vfFault{"produce/" + c.Topics[0].Name + "/0": l}
+	c.Script = []vfStep{{Op: "send", A: 0, B: k1}, {Op: "waitOutcomes", A: k1}, {Op: "send", A: k1, B: k1 + 1}, {Op: "waitOutcomes", A: k1 + 1},
+		{Op: "send", A: k1 + 1, B: n}, {Op: "waitOutcomes", A: n}}
+	c.CloseMode = "async"
+}
+
 // vfGenRetryStorm is a directed template: a retriable failure puts the hot partition into a retry, fresh messages are parked
 // behind it, the partition is leaderless exactly while the retry buffers are flushed (so the parked messages fail), then the
 // leader comes back and a later message goes through another retry cycle on the same partition.
@@ -408,6 +448,9 @@ func vfGenProdCase(t *rapid.T, emph string) *vfProdCase {
 	vfGenScript(t, c, gates)
 	if (emph == "C01" || emph == "C02" || emph == "C12") && len(c.Msgs) >= 4 && rapid.IntRange(0, 3).Draw(t, "retryStorm") == 0 {
 		vfGenRetryStorm(t, c)
+	}
+	if emph == "C05" && rapid.IntRange(0, 3).Draw(t, "idleBump") == 0 {
+		vfGenIdleBump(t, c)
 	}
 	if !c.StormDelays {
 		vfGenDelays(t, c)
